@@ -78,8 +78,9 @@ def reachability(ctx):
     def rec(x):
         return "%s(%s,P%d,P%d)" % (R, x, i_reg, i_set)
     t = show(N.term(fn["body"]), 10 ** 6)
-    head = "early{Not(HashSet::insert(P%d,P%d))=>return '()'}{" % (i_set, i_id)
-    ctx.expect(t.startswith(head), "C08.3", "reach/guard-and-root", fn["sp"], "visited check first; the root id itself is inserted", "traversal starts with: " + t[:160])
+    head = "if(HashSet::insert(P%d,P%d)){" % (i_set, i_id)
+    ctx.expect(t.startswith(head) and t.endswith("else{'()'}"), "C08.3", "reach/guard-and-root", fn["sp"],
+               "visited check first; the root id itself is inserted; nothing happens for an id seen before", "traversal starts with: " + t[:160])
     TP = "for(%s.type_params){if(let v1::Some($)=elem(%s.type_params).ty){%s}else{'()'}}" % (TY, TY, rec("elem(%s.type_params).ty@v1::Some.0.id" % TY))
     ctx.expect(TP in t, "C08.3", "reach/type-params", fn["sp"], "every non-skipped type parameter is visited", "type-parameter loop changed")
     arms = {
